@@ -518,7 +518,9 @@ def gen_e2e_case(r):
         s = r.randint(0, T)
         d = T + r.randint(0, 2) if deep else r.randint(1, max(1, T - s))   # zero-length host slices are removed
         evs.append([True, 0, r.choice([1, 2, 3]), s, d, i])                  # by an earlier stage of the pipeline
-    case = mk_case(mode, 5, True, r.choice([1.0, 0.5, 0.25]), evs)
+    # (1/16 us = 0.0625: exact at the 0.1 ns the tool rounds to internally, but off the 1 ns grid - nothing may round slice
+    # boundaries on the way to the export)
+    case = mk_case(mode, 5, True, r.choice([1.0, 0.5, 0.25, 0.0625]), evs)
     # host slices of a FLEX file that carry torch-profiler annotations: a later stage renames their lanes
     case["annot"] = r.random() < 0.25
     # every eighth case: the same slices as a torch profile with string thread ids (oracle only, no Coq comparison:
